@@ -120,6 +120,8 @@ type Matcher func(Pred) bool
 type env struct {
 	params map[string]*Expr
 	up     *env
+	call   ssa.CallInstruction // the call this environment instantiates (nil at the top)
+	caller *env                // the environment of the function containing call
 }
 
 func (e *env) apply(x *Expr) *Expr {
@@ -219,26 +221,54 @@ func (w *World) holds(fn *ssa.Function, v ssa.Value, pol bool, m Matcher, en *en
 			return false
 		}
 		return true
-	case *ssa.Call:
+	case *ssa.Parameter:
+		// a condition handed to a helper as a bool argument: decide it where it was computed
+		if en != nil && en.call != nil && x.Parent() != nil {
+			cc := en.call.Common()
+			var args []ssa.Value
+			if cc.IsInvoke() {
+				args = append(args, cc.Value)
+			}
+			args = append(args, cc.Args...)
+			for i, p := range x.Parent().Params {
+				if p == x && i < len(args) && en.call.Parent() != nil {
+					busy[k] = true
+					defer delete(busy, k)
+					return w.holds(en.call.Parent(), args[i], pol, m, en.caller, depth, busy)
+				}
+			}
+		}
+	case *ssa.Call, *ssa.Extract:
 		if depth <= 0 {
 			return false
 		}
-		g := w.PreferredCallee(x)
-		if g == nil {
-			return false
+		var call *ssa.Call
+		ri := 0
+		switch y := x.(type) {
+		case *ssa.Call:
+			call = y
+			if y.Call.Signature().Results().Len() != 1 {
+				return false
+			}
+		case *ssa.Extract:
+			c, ok := y.Tuple.(*ssa.Call)
+			if !ok || y.Type().String() != "bool" {
+				return false
+			}
+			call, ri = c, y.Index
 		}
-		if g.Signature.Results().Len() != 1 {
+		g, sub := w.calleeEnv(call, en)
+		if g == nil {
 			return false
 		}
 		busy[k] = true
 		defer delete(busy, k)
-		sub := w.callEnv(g, x, en)
 		for _, blk := range g.Blocks {
 			r, ok := blk.Instrs[len(blk.Instrs)-1].(*ssa.Return)
-			if !ok {
+			if !ok || ri >= len(r.Results) {
 				continue
 			}
-			o := r.Results[0]
+			o := r.Results[ri]
 			if c, ok := o.(*ssa.Const); ok && c.Value != nil && constBool(c) != pol {
 				continue
 			}
@@ -271,13 +301,12 @@ func (w *World) holds(fn *ssa.Function, v ssa.Value, pol bool, m Matcher, en *en
 			if call == nil {
 				return false
 			}
-			g := w.PreferredCallee(call)
+			g, sub := w.calleeEnv(call, en)
 			if g == nil {
 				return false
 			}
 			busy[k] = true
 			defer delete(busy, k)
-			sub := w.callEnv(g, call, en)
 			for _, blk := range g.Blocks {
 				r, ok := blk.Instrs[len(blk.Instrs)-1].(*ssa.Return)
 				if !ok || idx >= len(r.Results) {
@@ -320,6 +349,92 @@ func errSource(v ssa.Value) (*ssa.Call, int) {
 	return nil, 0
 }
 
+// dynCallee resolves a call through a function-typed parameter in the context it is made in: the
+// argument handed in at the call that instantiates the enclosing function (followed up the chain of
+// environments) must be a function, a closure or a bound method value. It returns the target, the
+// closure that carries its bindings (nil for a plain function) and the environment the closure was
+// created in.
+func (w *World) dynCallee(v ssa.Value, en *env) (*ssa.Function, *ssa.MakeClosure, *env) {
+	for depth := 0; depth < 8; depth++ {
+		switch x := v.(type) {
+		case *ssa.Function:
+			if u := w.unwrap(x); u != nil && w.inSet[u] && len(u.Blocks) > 0 {
+				return u, nil, en
+			}
+			return nil, nil, nil
+		case *ssa.MakeClosure:
+			f0, ok := x.Fn.(*ssa.Function)
+			if !ok {
+				return nil, nil, nil
+			}
+			if u := w.unwrap(f0); u != nil && w.inSet[u] && len(u.Blocks) > 0 {
+				return u, x, en
+			}
+			return nil, nil, nil
+		case *ssa.ChangeType:
+			v = x.X
+			continue
+		case *ssa.Parameter:
+			if en == nil || en.call == nil || x.Parent() == nil {
+				return nil, nil, nil
+			}
+			cc := en.call.Common()
+			var args []ssa.Value
+			if cc.IsInvoke() {
+				args = append(args, cc.Value)
+			}
+			args = append(args, cc.Args...)
+			ps := x.Parent().Params
+			shift := len(ps) - len(args) // a bound method value: the receiver is not among the arguments
+			idx := -1
+			for i, p := range ps {
+				if p == x {
+					idx = i - shift
+				}
+			}
+			if shift < 0 || idx < 0 || idx >= len(args) {
+				return nil, nil, nil
+			}
+			v, en = args[idx], en.caller
+			continue
+		}
+		return nil, nil, nil
+	}
+	return nil, nil, nil
+}
+
+// calleeEnv resolves the single in-scope callee of a call (statically, by the preferred implementer, or
+// through a function-typed parameter in context) and the environment instantiating its parameters.
+func (w *World) calleeEnv(call ssa.CallInstruction, en *env) (*ssa.Function, *env) {
+	if g := w.PreferredCallee(call); g != nil {
+		return g, w.callEnv(g, call, en)
+	}
+	cc := call.Common()
+	if cc.IsInvoke() || cc.StaticCallee() != nil {
+		return nil, nil
+	}
+	g, mc, men := w.dynCallee(cc.Value, en)
+	if g == nil {
+		return nil, nil
+	}
+	params := map[string]*Expr{}
+	args := cc.Args
+	ps := g.Params
+	if mc != nil && len(ps) == len(args)+len(mc.Bindings) && len(g.FreeVars) == 0 {
+		// bound method value: the bindings are the leading parameters (the receiver)
+		for i, b := range mc.Bindings {
+			params[ps[i].Name()] = men.apply(w.ExprOf(b))
+		}
+		ps = ps[len(mc.Bindings):]
+	}
+	for i, p := range ps {
+		if i < len(args) {
+			params[p.Name()] = en.apply(w.ExprOf(args[i]))
+		}
+	}
+	return g, &env{params: params, call: call, caller: en}
+}
+
 func (w *World) callEnv(g *ssa.Function, call ssa.CallInstruction, up *env) *env {
 	cc := call.Common()
 	params := map[string]*Expr{}
@@ -341,7 +456,7 @@ func (w *World) callEnv(g *ssa.Function, call ssa.CallInstruction, up *env) *env
 		}
 	}
 	// parameters were already mapped into top-level terms: no need to chain
-	return &env{params: params}
+	return &env{params: params, call: call, caller: up}
 }
 
 var errCtorPkgs = map[string]bool{
